@@ -6,6 +6,7 @@ mod gm;
 mod hooks;
 mod report;
 mod run;
+mod sched;
 mod zoo;
 
 use report::*;
@@ -36,6 +37,7 @@ fn main() {
         let engine = v["engine"].as_str().unwrap_or("").to_string();
         let vs = match engine.as_str() {
             "e1" => engines::e1::replay(&v),
+            e if e.starts_with("e2") => engines::e2::replay(&v),
             e if e.starts_with("e3") => engines::e3::replay(&v),
             e if e.starts_with("e5") => engines::e5::replay(&v),
             other => {
@@ -103,9 +105,12 @@ fn main() {
             }
             engines::c12::seed_replay(&a, &shared);
             engines::e1::run_c12_graphs(&a, &shared);
+            engines::e2::run_c12_timeouts(&a, &shared);
         }
         "C13" => engines::e1::run_c13(&a, &shared),
         "C04" => engines::e4::run_c04(&a, &shared),
+        "C05" => engines::e2::run_c05(&a, &shared),
+        "C12T" => engines::e2::run_c12_timeouts(&a, &shared),
         "C10" => engines::c10::run_c10(&a, &shared),
         "C15" => engines::c15::run_c15(&a, &shared),
         "C16" => engines::c16::run_c16(&a, &shared),
